@@ -550,6 +550,17 @@ func listObjects(ctx context.Context, c S3Interface, bucketName, prefix string) 
 // Clone returns an independent database, with the same entries and uncommitted values as its
 // source. Clones don't duplicate nodes that can be shared.
 func (s *DB) Clone(ctx context.Context) (*DB, error) {
+	if !s.crdt.IsDirty() && s.Size() > 0 {
+		// A clean tree may still hold its root node in memory (after a
+		// Clone, or a Commit that had nothing to write), and the clone would
+		// share that node. Inserts can write into shared nodes, so entries
+		// set in one of the trees leaked into the other. Turn the root back
+		// into a link (nothing is stored for a clean tree); each tree then
+		// loads its own copy.
+		if _, err := s.crdt.Mast.MakeRoot(ctx); err != nil {
+			return nil, err
+		}
+	}
 	kvCopy := *s
 	cfgCopy := *s.cfg
 	kvCopy.cfg = &cfgCopy
